@@ -338,7 +338,8 @@ class Gen:
             g = r.choice(["h", "x", "y", "z", "rx", "ry", "rz", "cx"])
             self.features.add("gate")
             if g in ("rx", "ry", "rz"):
-                ang = r.choice(["0.5f", "1.5f", "3.140625f", "0.25f", "2.0f", "-0.75f" if False else "0.75f"])
+                ang = r.choice(["0.5f", "1.5f", "3.140625f", "0.25f", "2.0f", "0.75f", "-0.75f", "-0.25f", "-1.5f", "-3.0f", "-0.0000004f",
+                                "0.0000005f", "100.5f", "-12.125f", "0.0f"])
                 return done("%s(%s, %s);" % (g, operand(), ang))
             if g == "cx":
                 a, b = operand(), operand()
